@@ -1001,3 +1001,129 @@ func ruleR8_9(w *World, r *Report) {
 		r.OK("R8.9", key, w.Pos(prop.Pos()), fmt.Sprintf("%d skip edge(s), each under the satisfied-table", n))
 	}
 }
+
+// ---------- R13.9: the variable count covers every literal the OPB term reader produces ----------
+
+func ruleR13_9(w *World, r *Report) {
+	r.Rule("R13.9", "the OPB term reader raises Problem.NbVars to every variable index it returns (in the iteration that appends it), or else every caller does so in a loop over the whole returned list - also the caller that reads the objective line, whose variables need not occur in any constraint", 1)
+	n := 0
+	for _, fn := range w.Fns {
+		if w.PkgName(fn) != "solver" || fn.Signature.Recv() == nil || typeShort(fn.Signature.Recv().Type()) != "*solver.Problem" {
+			continue
+		}
+		res := fn.Signature.Results()
+		if res.Len() != 3 || typeShort(res.At(0).Type()) != "[]int" || typeShort(res.At(1).Type()) != "[]int" || !isErrorType(res.At(2).Type()) {
+			continue
+		}
+		n++
+		key := w.FuncName(fn) + " results are covered by NbVars"
+		raisesIn := func(f *ssa.Function) (inLoopStore bool, fullLoopOver func(v ssa.Value) bool) {
+			var stores []*ssa.Store
+			for _, st := range storesToField(f, "solver.Problem", "NbVars") {
+				if inLoop(f, st.Block()) {
+					stores = append(stores, st)
+				}
+			}
+			return len(stores) > 0, func(v ssa.Value) bool {
+				for _, st := range stores {
+					// the stored value derives from an element of v read with a full-range index
+					ok := false
+					seen := map[ssa.Value]bool{}
+					var walk func(x ssa.Value, d int)
+					walk = func(x ssa.Value, d int) {
+						if x == nil || seen[x] || d > 6 {
+							return
+						}
+						seen[x] = true
+						switch y := x.(type) {
+						case *ssa.UnOp:
+							if y.Op == token.MUL {
+								if ia, isIA := y.X.(*ssa.IndexAddr); isIA && ia.X == v {
+									if fullRangeIndex(ia.Index, func(b ssa.Value) bool {
+										return isLenOf(b, func(z ssa.Value) bool { return z == v })
+									}) {
+										ok = true
+									}
+									return
+								}
+							}
+							walk(y.X, d+1)
+						case *ssa.Call:
+							for _, a := range y.Call.Args {
+								walk(a, d+1)
+							}
+						case *ssa.Convert:
+							walk(y.X, d+1)
+						case *ssa.BinOp:
+							walk(y.X, d+1)
+							walk(y.Y, d+1)
+						case *ssa.Phi:
+							for _, e := range y.Edges {
+								walk(e, d+1)
+							}
+						}
+					}
+					walk(st.Val, 0)
+					if ok {
+						return true
+					}
+				}
+				return false
+			}
+		}
+		// A: inside the reader, the value stored into NbVars in the loop is the integer whose (signed) value is appended
+		okA := false
+		if has, _ := raisesIn(fn); has {
+			for _, st := range storesToField(fn, "solver.Problem", "NbVars") {
+				if !inLoop(fn, st.Block()) {
+					continue
+				}
+				// guarded by `val > NbVars`
+				for _, ec := range dominatingConds(st.Block()) {
+					if bo, ok := ec.Cond.(*ssa.BinOp); ok && ec.True && bo.Op == token.GTR && bo.X == st.Val {
+						if _, isNb := isFieldLoad(bo.Y, "solver.Problem", "NbVars"); isNb {
+							// every return of a non-nil list passes through the loop: the store is in the reader's only loop
+							okA = true
+						}
+					}
+				}
+			}
+		}
+		if okA {
+			r.OK("R13.9", key, w.Pos(fn.Pos()), "raised inside the reader, per term")
+			continue
+		}
+		var bad []string
+		callers := w.Callers[fn]
+		for _, site := range callers {
+			c, isCall := site.(*ssa.Call)
+			if !isCall {
+				continue
+			}
+			var lits ssa.Value
+			for _, ref := range *c.Referrers() {
+				if ex, ok := ref.(*ssa.Extract); ok && ex.Index == 1 {
+					lits = ex
+				}
+			}
+			covered := false
+			if lits != nil {
+				if has, full := raisesIn(site.Parent()); has && full(lits) {
+					covered = true
+				}
+			}
+			if !covered {
+				bad = append(bad, w.FuncName(site.Parent())+" at "+w.InstrPos(site))
+			}
+		}
+		if len(bad) > 0 || len(callers) == 0 {
+			sort.Strings(bad)
+			r.Bad("R13.9", key, w.Pos(fn.Pos()), "the reader does not raise NbVars itself and these callers do not raise it over the whole list they receive: "+strings.Join(bad, "; ")+": a variable that occurs only there (typically in the objective) is beyond the declared count, and building a solver indexes past its tables")
+		} else {
+			r.OK("R13.9", key, w.Pos(fn.Pos()), fmt.Sprintf("raised by each of the %d caller(s) over the whole list", len(callers)))
+		}
+	}
+	if n == 0 {
+		r.Unk("R13.9", "OPB term reader", "-", "no method of Problem returning ([]int, []int, error)")
+	}
+}
